@@ -49,6 +49,29 @@ def cases(tier, seed):
 
 
 def _cases(tier, seed):
+    yield from _main_cases(tier, seed)
+    # projected-coordinate magnitudes: metre-scale point spacing at UTM-like offsets (the kernels depend on coordinate differences, which
+    # stay exact; an expanded |p|^2 + |f|^2 - 2 p.f form does not: seed C02-9) and a 200 km wide cloud around the origin for the
+    # trends of degree 0..4 (column scaling matters: seed C02-10)
+    subs = list(itertools.combinations(range(9), 5))
+    subs = subs[seed % 7::7] if tier == "quick" else subs[::2]
+    for s in subs:
+        s = list(s)
+        for sc, off in ((1.0, (5.0e5, 7.4e6)), (25.0, (-3.2e5, 8.1e6))):
+            yield dict(est="Spline", mindist_rel=0.0, pts=s, forces=None, sc=sc, off=list(off))
+            yield dict(est="Spline", mindist_rel=0.1, pts=s, forces=[i for i in range(9) if i not in s][:3], sc=sc, off=list(off))
+            yield dict(est="VectorSpline2D", poisson=0.5, mindist_rel=0.1, pts=s, forces=None, sc=sc, off=list(off))
+        for deg in (0, 1, 2, 3, 4):
+            if deg >= 3:
+                continue   # five points do not determine a cubic: the six- and nine-point sets below do
+            yield dict(est="Trend", degree=deg, pts=s, sc=1.0e5)
+    for deg in (0, 1, 2, 3, 4):
+        for s in ([0, 1, 2, 3, 4, 5, 6, 7, 8], [0, 1, 2, 3, 5, 6, 7, 8]):
+            for sc in (1.0e5, 2.5e4, 1.0):
+                yield dict(est="Trend", degree=deg, pts=s, sc=sc)
+
+
+def _main_cases(tier, seed):
     ks = (4, 5) if tier == "quick" else (4, 5, 6)
     ms = (2, 3) if tier == "quick" else (2, 3, 4)
     nus = (-1.0, 0.0, 0.5) if tier == "quick" else (-1.0, -0.5, 0.0, 0.5, 1.0)
@@ -89,10 +112,10 @@ def _cases(tier, seed):
                         yield dict(est="VectorSpline2D", poisson=nu, mindist_rel=0.1, pts=s, forces=fl, sc=sc)
 
 
-def _xy(idx, sc):
+def _xy(idx, sc, off=(0.0, 0.0)):
     pts = [L33[i] for i in idx]
-    e = np.array([(p[0] + JIT[p][0]) * sc for p in pts])
-    n = np.array([(p[1] + JIT[p][1]) * sc for p in pts])
+    e = np.array([(p[0] + JIT[p][0]) * sc + off[0] for p in pts])
+    n = np.array([(p[1] + JIT[p][1]) * sc + off[1] for p in pts])
     return e, n
 
 
@@ -115,14 +138,15 @@ def run(case, rec):
     import warnings
 
     sc = case["sc"]
+    off = tuple(case.get("off", (0.0, 0.0)))
     ext = 2.0 * sc
-    e, n = _xy(case["pts"], sc)
+    e, n = _xy(case["pts"], sc, off)
     npts = e.size
-    qe = np.array([q[0] * sc for q in QUERIES]); qn = np.array([q[1] * sc for q in QUERIES])
+    qe = np.array([q[0] * sc + off[0] for q in QUERIES]); qn = np.array([q[1] * sc + off[1] for q in QUERIES])
     kind = case["est"]
     vector = kind == "VectorSpline2D"
     if case.get("forces") is not None:
-        fe, fn = _xy(case["forces"], sc)
+        fe, fn = _xy(case["forces"], sc, off)
     else:
         fe, fn = e, n
     md = case.get("mindist_rel", 0.0) * ext
